@@ -7,6 +7,8 @@ import (
 	"strings"
 	"time"
 
+	"github.com/NethermindEth/juno/migration/blocktransactions"
+
 	"github.com/NethermindEth/juno/db/memory"
 	"verif/harness/lib"
 )
@@ -21,12 +23,13 @@ func (h *harness) probes() {
 	{
 		c := chainSpec{Seed: 7, Counts: repeatInt(1, 20), Layout: strings.Repeat("o", 10) + strings.Repeat("n", 10)}
 		d, err := c.build()
-		if err == nil {
-			o := runBlockTx(d, btPlan{}, false)
-			if o.ret == "done" {
-				v := readBlockCurrent(o.final, c, 10)
-				over = !(sameView(v, c.expectedView(10)))
-			}
+		if err != nil {
+			h.res.Fatalf("probe fixture (resume over a hole) does not build: %v", err)
+		} else if o := runBlockTx(d, btPlan{}, false); o.ret != "done" {
+			h.res.Fatalf("probe (resume over a hole): Migrate returned %s %s", o.ret, o.errText)
+		} else {
+			v := readBlockCurrent(o.final, c, 10)
+			over = !(sameView(v, c.expectedView(10)))
 		}
 	}
 	// (B) leading empty blocks below the aligned first block
@@ -34,12 +37,13 @@ func (h *harness) probes() {
 		cnt := append(repeatInt(0, 10), 1)
 		c := chainSpec{Seed: 7, Counts: cnt, Layout: strings.Repeat("o", 11)}
 		d, err := c.build()
-		if err == nil {
-			o := runBlockTx(d, btPlan{}, false)
-			if o.ret == "done" {
-				v := readBlockCurrent(o.final, c, 0)
-				skip = v.Err != "ok"
-			}
+		if err != nil {
+			h.res.Fatalf("probe fixture (leading empty blocks) does not build: %v", err)
+		} else if o := runBlockTx(d, btPlan{}, false); o.ret != "done" {
+			h.res.Fatalf("probe (leading empty blocks): Migrate returned %s %s", o.ret, o.errText)
+		} else {
+			v := readBlockCurrent(o.final, c, 0)
+			skip = v.Err != "ok"
 		}
 	}
 	h.btOver, h.btSkip = over, skip
@@ -69,7 +73,7 @@ func (h *harness) probes() {
 func (h *harness) blockTxImage(c chainSpec, where string) *memory.Database {
 	d, err := c.build()
 	if err != nil {
-		h.res.Note("spec does not build: %v", err)
+		h.res.Fatalf("spec does not build: %v", err)
 		return nil
 	}
 	o := runBlockTx(d, btPlan{}, false)
@@ -111,12 +115,31 @@ func (h *harness) blockTxAll() {
 		}
 	}
 	h.blockTxImage(chainSpec{NoHeight: true}, "empty-db")
+	// old entries above the chain height (the height key lags behind the stored blocks): the
+	// migration must return (an error or completion), not spin
+	{
+		c := chainSpec{Seed: 19, Counts: repeatInt(1, 15), Layout: strings.Repeat("o", 15), Corrupt: []string{"set-height:9"}}
+		if d, err := c.build(); err != nil {
+			h.res.Fatalf("fixture does not build: %v", err)
+		} else {
+			o := runMigrator(blocktransactions.Migrator{}, nil, d, btPlan{MaxSecs: 4}, false, 6*time.Second, false)
+			h.res.Case("entries-above-height", true)
+			h.res.Hit("bt-entries-above-height:" + o.ret)
+			if o.ret == "hang" {
+				h.res.Violate(lib.Violation{Sig: "blocktx-busy-loops-on-old-entries-above-chain-height",
+					What: "old per-transaction entries exist for blocks above the stored chain height: getFirstBlockToMigrate returns a block above the height, " +
+						"the pass emits nothing, reports done without error, and the loop of Migrate repeats forever (4 s without returning, the store being read all the time)",
+					Replay: btReplay{c, "build spec (15 blocks stored, chain height key = 9), run Migrate with a deadline", 0}})
+			}
+		}
+	}
 	// databases the migration must refuse: every damage kind at the first, a middle and the last block
 	for _, kind := range []string{"drop-receipts", "drop-txs", "drop-header", "count+1", "drop-last-receipt"} {
 		for _, b := range []int{0, 13, 24} {
 			c := chainSpec{Seed: 17, Counts: repeatInt(2, 25), Layout: strings.Repeat("o", 25), Corrupt: []string{fmt.Sprintf("%s:%d", kind, b)}}
 			d, err := c.build()
 			if err != nil {
+				h.res.Fatalf("fixture does not build: %v", err)
 				continue
 			}
 			o := runBlockTx(d, btPlan{}, false)
@@ -231,9 +254,10 @@ func (h *harness) resumeAndCheck(c chainSpec, img *memory.Database, twin map[str
 			if plan == (btPlan{}) {
 				imgSpec = specOfImage(c, cur)
 			}
-			good := checkFinal(h.res, c, imgSpec, o.final)
-			if good && twin != nil {
-				if same, why := sameDump(dump(o.final), twin); !same {
+			checkFinal(h.res, c, imgSpec, o.final)
+			if twin != nil {
+				// unconditional: everything except the entries of empty blocks must equal the undisturbed run
+				if same, why := sameDumpModuloEmpty(c, dump(o.final), twin); !same {
 					h.res.Violate(lib.Violation{Sig: "blocktx-final-db-differs-from-uninterrupted-run", What: why,
 						Replay: btReplay{imgSpec, "resume from this image vs. uninterrupted run from the all-old database", 0}})
 				}
@@ -252,7 +276,7 @@ func (h *harness) resumeAndCheck(c chainSpec, img *memory.Database, twin map[str
 func (h *harness) blockTxHistory(c chainSpec, budget int) {
 	d, err := c.build()
 	if err != nil {
-		h.res.Note("spec does not build: %v", err)
+		h.res.Fatalf("spec does not build: %v", err)
 		return
 	}
 	h.res.Sample(6, map[string]any{"kind": "blocktx-history", "spec": c})
@@ -331,6 +355,7 @@ func (h *harness) blockTxWriteFailures() {
 	c := chainSpec{Seed: 3, Counts: repeatInt(2, 60), Layout: strings.Repeat("o", 60)}
 	d, err := c.build()
 	if err != nil {
+		h.res.Fatalf("fixture does not build: %v", err)
 		return
 	}
 	hangs := 0
@@ -398,10 +423,12 @@ func (h *harness) blockTxReadFaults() {
 	for _, c := range specs {
 		d, err := c.build()
 		if err != nil {
+			h.res.Fatalf("fixture does not build: %v", err)
 			continue
 		}
 		tw := runBlockTx(d, btPlan{}, false)
 		if tw.ret != "done" {
+			h.res.Fatalf("read-fault family: the undisturbed run returned %s %s", tw.ret, tw.errText)
 			continue
 		}
 		twin := dump(tw.final)
@@ -474,8 +501,9 @@ func (h *harness) blockTxReadFaultCase(c chainSpec, d *memory.Database, twin map
 		return
 	}
 	h.bt.transition(c, o.final, r.final, "return", "done", "rerun-after-read-fault")
-	if checkFinal(h.res, c, specOfImage(c, o.final), r.final) {
-		if same, why := sameDump(dump(r.final), twin); !same {
+	checkFinal(h.res, c, specOfImage(c, o.final), r.final)
+	{
+		if same, why := sameDumpModuloEmpty(c, dump(r.final), twin); !same {
 			h.res.Violate(lib.Violation{Sig: "blocktx-final-db-differs-from-uninterrupted-run", What: "after a read error and a rerun: " + why, Replay: rp})
 		}
 	}
